@@ -54,11 +54,25 @@ impl Remote {
                 .join("\n");
             let iurl = format!("https://index.crates.io/{}/{}/{name}", &name[0..2], &name[2..4]).to_ascii_lowercase();
             m.insert(reqwest::Url::parse(&iurl).unwrap(), bytes::Bytes::from(index));
+            // how the (non-)match of the metadata comes about varies with the registry content:
+            // "description matches OR repository matches", each only when crates.io declares it
+            let variant = (name.bytes().map(|b| b as u64).sum::<u64>() + versions.iter().map(|v| v.version.major).sum::<u64>() + versions.len() as u64) % 4;
+            let same_desc = Some("whatever".to_owned());
+            let other_desc = Some("something else entirely".to_owned());
+            let same_repo = Some(gen::local_repository(name));
+            let other_repo = Some(format!("https://example.com/upstream/{name}"));
+            let (description, repository) = match (self.matching_metadata.contains(name), variant) {
+                (true, 0) => (same_desc, None),
+                (true, 1) => (same_desc, other_repo),
+                (true, 2) => (other_desc, same_repo),
+                (true, _) => (None, same_repo),
+                (false, 0) => (other_desc, None),
+                (false, 1) => (other_desc, other_repo),
+                (false, 2) => (None, None),
+                (false, _) => (None, other_repo),
+            };
             let api = CratesAPICrate {
-                crate_data: CratesAPICrateMetadata {
-                    description: if self.matching_metadata.contains(name) { Some("whatever".to_owned()) } else { Some("something else entirely".to_owned()) },
-                    repository: None,
-                },
+                crate_data: CratesAPICrateMetadata { description, repository },
                 versions: versions
                     .iter()
                     .map(|v| CratesAPIVersion {
